@@ -80,7 +80,26 @@ def expr_stream(rng: random.Random, tier: str, n_random: int, depth_q: int = 4, 
         out.append(("random", g.expr(1 + i % maxd)))
     if max_size:        # checks that run many operations per case leave the very large inputs to the others
         out = [(o, e) for o, e in out if wire.size(e) <= max_size]
-    return out
+    return [(o, rename_variables(rng, e)) if rng.random() < 0.2 else (o, e) for o, e in out]
+
+
+NAME_SCHEMES = [
+    {"x": "xx", "y": "y_1", "z": "zeta"}, {"x": "whatever", "y": "name", "z": "self"}, {"x": "point", "y": "value", "z": "variable"},
+    # legal names (\w+) that Unicode normalisation (NFKC) would change, next to the names it would change them into:
+    # MICRO SIGN / GREEK MU, superscript two / "x2", fullwidth x / "x", the fi ligature / "fi"
+    {"x": "\u00b5", "y": "\u03bc", "z": "x\u00b2"}, {"x": "x\u00b2", "y": "x2", "z": "\u00b5"}, {"x": "\uff58", "y": "x", "z": "\ufb01"},
+    {"x": "\ufb01", "y": "fi", "z": "\u2167"}, {"x": "\u00e9", "y": "e\u0301".replace("\u0301", "_"), "z": "\u212a"},
+]
+
+
+def rename_variables(rng: random.Random, e):
+    """the same expression (object sharing kept) over other variable names"""
+    scheme = rng.choice(NAME_SCHEMES)
+    toks = wire.expr(e, ids={}).split(" ")
+    for i, t in enumerate(toks):
+        if i and toks[i - 1].split("@")[0].split(".")[0] == "V":
+            toks[i] = scheme.get(t, t)
+    return wire.build_raw(" ".join(toks))
 
 
 def points_for(rng: random.Random, e, k: int, extra: float = 0.0) -> list[dict]:
@@ -418,5 +437,63 @@ def expr_hash_twins(text: str, limit: int = 3) -> list[str]:
         out.append(" ".join(t2))
     if len(sites) > 1:
         out.append(" ".join(HASH_TWIN_TOKENS[t] if i in sites else t for i, t in enumerate(toks)))
+    return out
+
+
+def int_exact(rng: random.Random, count: int) -> list[tuple]:
+    """(expression, point) pairs on which CPython's own arithmetic is exact where doubles are not: one sum /
+    difference / negation / integer power whose operands are all *int* leaves (int Constants, Variables with int
+    coordinates) beyond 2**53 that cancel to a small integer, alone and under every node with a restricted domain.
+    `math_functions.add/minus/negation/nth_power` work on Python ints there and convert once, so sign and zero-ness
+    of the node's value are those of exact arithmetic - the exact-rational instance of the model decides these
+    cases (marked ``int_exact``), not the double instance"""
+    X, V, C = gen.X, gen.X.Variable, gen.X.Constant
+    out = []
+    for _ in range(count):
+        t = rng.choice([0, 0, 1, 1, -1, 4, 8, -8, 2, 3, 9, 27, 16])
+        m = rng.randint(2, 5)
+        vals = [rng.choice([1, -1]) * (2 ** rng.randint(53, 60) + rng.randrange(1, 2 ** 20) * 2 + 1) for _ in range(m - 1)]
+        vals.append(t - sum(vals))
+        rng.shuffle(vals)
+        names = ["x", "y", "zeta"]
+        p: dict = {}
+        leaves = []
+        for k, v in enumerate(vals):
+            if k < len(names) and rng.random() < 0.5:
+                p[names[k]] = v
+                leaves.append(V(names[k]))
+            else:
+                leaves.append(C(v))
+        if not p:
+            p["x"] = vals[0]
+            leaves[0] = V("x")
+        shape = rng.randrange(4)
+        if shape == 0 or m > 2:
+            S = X.Add(*leaves)
+        elif shape == 1:
+            # a - b with b = -(second operand)
+            b = leaves[1]
+            if wire.cls(b) == "Constant":
+                S = X.Minus(leaves[0], C(-b.value))
+            else:
+                p[b.name] = -p[b.name]
+                S = X.Minus(leaves[0], b)
+        elif shape == 2:
+            S = X.Negation(X.Add(*[C(-l.value) if wire.cls(l) == "Constant" else l for l in leaves]))
+            for l in leaves:
+                if wire.cls(l) == "Variable":
+                    p[l.name] = -p[l.name]
+        else:
+            S = X.Add(*leaves)
+        parents = [S, X.Reciprocal(S), X.Divide(C(1), S), X.Divide(C(3), S), X.Power(S, C(2)), X.NthPower(S, 2),
+                   X.Multiply(C(2), X.Reciprocal(S))]
+        if t in (1, 4, 9, 16):
+            parents += [X.NthRoot(S, 2), X.Logarithm(S) if t == 1 else X.NthRoot(S, 4) if t == 16 else X.NthRoot(S, 2)]
+        if t in (1, 8, -8, 27, -1):
+            parents.append(X.NthRoot(S, 3))
+        if t <= 0:
+            parents += [X.NthRoot(S, 2), X.Logarithm(S), X.NthRoot(S, 4)]
+        for e in rng.sample(parents, 3):
+            out.append((e, dict(p)))
     return out
 
